@@ -1190,6 +1190,10 @@ func parsePageSelectors(rule pa.QualifiedRule) (out []pageSelector) {
 					nth := firstToken.Arguments
 					for i, argument := range firstToken.Arguments {
 						if ident, ok := argument.(pa.Ident); ok && ident.Value == "of" {
+							if i == 0 {
+								// "of" without An+B before it: invalid selector
+								return nil
+							}
 							nth = (firstToken.Arguments)[:(i - 1)]
 							group = (firstToken.Arguments)[i:]
 						}
